@@ -4,7 +4,6 @@ import (
 	"encoding/json"
 	"fmt"
 	"os"
-	"reflect"
 	"testing"
 
 	"pgregory.net/rapid"
@@ -106,10 +105,10 @@ func TestCycles(t *testing.T) {
 		// place required variants: mostly where satisfiable, sometimes not
 		in, g := premodel(s)
 		for i := range s.Nodes {
-			if s.Nodes[i].Variant != 'N' {
+			if s.Nodes[i].Variant != 'N' && s.Nodes[i].Variant != 'E' {
 				continue
 			}
-			c := g.ByPtr[reflect.ValueOf(in.Comps[i]).Pointer()]
+			c := g.Find(in.Comps[i])
 			sat := true
 			for _, p := range g.Points[c] {
 				if (p.Field.Name == "QS" || p.Field.Name == "Nx") && !p.Satisfiable() {
@@ -118,7 +117,14 @@ func TestCycles(t *testing.T) {
 			}
 			k := rapid.IntRange(0, 9).Draw(t, "req")
 			if (sat && k < 5) || (!sat && k == 0) {
-				s.Nodes[i].Variant = 'R'
+				switch {
+				case s.Nodes[i].Variant == 'E':
+					s.Nodes[i].Variant = 'F' // required points declared inside embedded structs
+				case k == 1 || k == 2:
+					s.Nodes[i].Variant = 'X' // the node is also a (pass-through) component post-processor
+				default:
+					s.Nodes[i].Variant = 'R'
+				}
 			}
 		}
 		decide(t, s, "rich")
